@@ -28,9 +28,9 @@ class C13(Check):
         "(CGO is off in the sandbox); the theorems carry the protocol logic only",
         "the Go scheduler, sync.RWMutex / WaitGroup / channel semantics and net deadlines are modelled (one "
         "transition per lock region, deadline in the past makes a blocked read fail), not verified",
-        "restart after Shutdown (Server.init replacing srv.shutdown / srv.conns), Hijack, MaxTCPQueries, "
-        "handler-initiated Close and the early error return of serveUDP (finding "
-        "C13/shutdown-blocks-after-failed-start) are outside the LTS",
+        "restart after Shutdown (Server.init replacing srv.shutdown / srv.conns), Hijack, MaxTCPQueries and "
+        "handler-initiated Close are outside the LTS; a start that fails in serveUDP before its loop is modelled "
+        "(SFailStart) only while no Shutdown call has slipped in between (docs/C13.md, residual corner)",
         "liveness is proved as progress (some server step is enabled while Shutdown waits), not as termination "
         "under fairness",
         "TLS listeners are not run (a TLS listener is a net.Listener wrapper; the TCP path is the same code)",
